@@ -227,6 +227,31 @@ inline constexpr bool IS_SPAN = false;
 template <class X>
 inline constexpr bool IS_SPAN<cntgs::Span<X>> = true;
 
+template <class X>
+std::uintptr_t field_begin(const X& x)
+{
+    if constexpr (IS_SPAN<X>)
+    {
+        return addr_of(x.data());
+    }
+    else
+    {
+        return addr_of(&x);
+    }
+}
+template <class X>
+std::uintptr_t field_end(const X& x)
+{
+    if constexpr (IS_SPAN<X>)
+    {
+        return addr_of(x.data() + x.size());
+    }
+    else
+    {
+        return addr_of(&x) + sizeof(X);
+    }
+}
+
 template <usize I, class X, usize N>
 void check_field(const X& x, const MElem<N>& e, int id, usize align)
 {
@@ -254,8 +279,17 @@ template <class LT, class Ref, usize... I>
 void check_elem_impl(const Ref& r, const MElem<LT::N>& e, int id, std::index_sequence<I...>)
 {
     (check_field<I>(cntgs::get<I>(r), e, id, LT::align[I]), ...);
-    // C04: fields in parameter order inside [data_begin, data_end)
-    verif_assert(addr_of(r.data_begin()) <= addr_of(r.data_end()), (id / 100) * 100 + 98);
+    // C04: fields in parameter order inside [data_begin, data_end), no overlap
+    std::uintptr_t lo[LT::N] = {field_begin(cntgs::get<I>(r))...};
+    std::uintptr_t hi[LT::N] = {field_end(cntgs::get<I>(r))...};
+    std::uintptr_t cur = addr_of(r.data_begin());
+    bool ordered = true;
+    for (usize j = 0; j < LT::N; ++j)
+    {
+        ordered = ordered && lo[j] >= cur && hi[j] >= lo[j];
+        cur = hi[j];
+    }
+    verif_assert(ordered && cur == addr_of(r.data_end()), (id / 100) * 100 + 98);
 }
 template <class LT, class Ref>
 void check_elem(const Ref& r, const MElem<LT::N>& e, int id)
@@ -318,12 +352,18 @@ void inv(Vec& v, const Model<LT::N>& m, int base)
     verif_assert(cv.empty() == (m.n == 0), base + 2);
     verif_assert(m.cap_exact ? cv.capacity() == m.cap : cv.capacity() >= m.n, base + 3);
     check_fixed_sizes<LT>(cv, m, base + 4, std::make_index_sequence<LT::NFIXED>{});
+    std::uintptr_t prev_end = addr_of(cv.data_begin());
     for (usize i = 0; i < KMAX; ++i)
     {
         if (i < m.n && i < cv.size())
         {
             check_elem<LT>(v[i], m.e[i], base + 10);
             check_elem<LT>(cv[i], m.e[i], base + 40);
+            // C04: elements in index order inside [data_begin(), data_end()), no overlap; iterator.data() == reference.data_begin()
+            const auto r = cv[i];
+            verif_assert(addr_of(r.data_begin()) >= prev_end && addr_of(r.data_end()) <= addr_of(cv.data_end()), base + 98);
+            verif_assert(addr_of((cv.begin() + i).data()) == addr_of(r.data_begin()), base + 98);
+            prev_end = addr_of(r.data_end());
         }
     }
     if (m.n > 0 && cv.size() > 0)
